@@ -4,7 +4,7 @@
        annotations osmjson has no place for". Executable; used as the property oracle on what
        the implementation returned and as the statement language of the theorems. *)
 From Coq Require Import ZArith List String Ascii Bool.
-From Verif Require Import C05.Json C05.Schema C05.Model C05.Osm C05.SortTags.
+From Verif Require Import C05.Json C05.Schema C05.Model C05.Fmt C05.Osm C05.SortTags.
 From VerifGen Require Import GenJsonTags.
 Import ListNotations.
 Open Scope string_scope.
@@ -123,3 +123,53 @@ Fixpoint canon_json (j : json) : json :=
   | _ => j
   end.
 Definition json_equivb (a b : json) : bool := json_eqb (canon_json a) (canon_json b).
+
+(* ---- (3) what a document says about the header fields ------------------------------------
+   Written independently of the model's key resolution (Json.resolve / entries_f): a document
+   key names a header field when it equals the field's osmjson name up to ASCII case (the
+   table below), and the document "gives" the field when exactly one key does.  Documents
+   that repeat a header key are outside this specification (no claim). *)
+Definition lower_spec (c : ascii) : ascii :=
+  match c with
+  | "A" => "a" | "B" => "b" | "C" => "c" | "D" => "d" | "E" => "e" | "F" => "f" | "G" => "g"
+  | "H" => "h" | "I" => "i" | "J" => "j" | "K" => "k" | "L" => "l" | "M" => "m" | "N" => "n"
+  | "O" => "o" | "P" => "p" | "Q" => "q" | "R" => "r" | "S" => "s" | "T" => "t" | "U" => "u"
+  | "V" => "v" | "W" => "w" | "X" => "x" | "Y" => "y" | "Z" => "z" | c => c
+  end%char.
+Fixpoint eq_nocase (a b : string) : bool :=
+  match a, b with
+  | EmptyString, EmptyString => true
+  | String x a', String y b' => Ascii.eqb (lower_spec x) (lower_spec y) && eq_nocase a' b'
+  | _, _ => false
+  end.
+
+Definition field_values (n : string) (kv : list (string * json)) : list json :=
+  map snd (filter (fun p => eq_nocase (fst p) n) kv).
+
+Inductive given : Type := Absent | Given (j : json) | Repeated.
+Definition header_entry (n : string) (kv : list (string * json)) : given :=
+  match field_values n kv with [] => Absent | [j] => Given j | _ => Repeated end.
+
+(* the text of a JSON number as fmt's %v prints the float64 (C05/Fmt.v: a model of strconv's
+   shortest 'g' formatting, tied to the implementation by correspondence and examples only) *)
+Definition number_text : Z -> Z -> string := fmt_g.
+
+(* version: absent or null stays EMPTY; a string is taken as is; a number becomes its text *)
+Definition version_spec (kv : list (string * json)) (s : string) : Prop :=
+  match header_entry "version" kv with
+  | Absent | Given JNull => s = ""
+  | Given (JStr x) => s = x
+  | Given (JNum m k) => s = number_text m k
+  | Given (JBool b) => s = (if b then "true" else "false")
+  | Given _ => False                    (* arrays / objects: the model makes no prediction *)
+  | Repeated => True
+  end.
+(* the other header fields: absent or null stays EMPTY, a string is taken as is, anything else
+   cannot decode *)
+Definition string_field_spec (kv : list (string * json)) (n : string) (s : string) : Prop :=
+  match header_entry n kv with
+  | Absent | Given JNull => s = ""
+  | Given (JStr x) => s = x
+  | Given _ => False
+  | Repeated => True
+  end.
